@@ -109,6 +109,13 @@ fn check_one(reg: bool, kind: u8, c: u8, n: u16, v: u16) -> Option<String> {
         if slots_of(&s) != exp {
             return Some(format!("Structured {:?} encoding {:?}, expected {:?}", order, slots_of(&s), exp));
         }
+        // a third-party factory gets the trait's default constructors
+        if (v ^ n) & 3 == 0 || v < 2 || n < 2 {
+            let f: [Option<crate::carriers::Foreign>; 4] = m.to_short_messages(order);
+            if slots_of(&f) != exp {
+                return Some(format!("foreign factory {:?} encoding {:?}, expected {:?}", order, slots_of(&f), exp));
+            }
+        }
         if !lsb_first {
             let r2: [Option<RawShortMessage>; 4] = m.into();
             let s2: [Option<StructuredShortMessage>; 4] = m.into();
